@@ -79,3 +79,12 @@ def encoder_env(forest, interp, **over):
 
 def method(forest, interp, genv, cls, name):
     return FuncVal(forest.func('encoder', f'{cls}.{name}'), genv, interp)
+
+
+class SAModel(tuple):
+    """encoder._StructuredAppendInfo as its __new__ and its four accessors define it (checked by C08.R3)."""
+    _model = ('parity', 'number', 'total', 'mode')
+    mode = property(lambda s: s[0])
+    number = property(lambda s: s[1])
+    total = property(lambda s: s[2])
+    parity = property(lambda s: s[3])
